@@ -6,6 +6,9 @@
 //! exactly one output word (the battery `Q` emits several).  Paths are relative to the
 //! scratch root `<wsbase>/<pid>-<n>/r`, which is created first and removed afterwards.
 //!
+//!   R                 (first op only, no output word) the server is given the root through a SYMLINK
+//!                     `<wsbase>/<pid>-<n>/link -> r` and every request URI goes through it, as a client whose
+//!                     workspace folder is a symlink does; answers must be those of the canonical root
 //!   M<rel>            mkdir -p                                     -> `M`
 //!   W<rel>=<cls>:<t>  write file: `class <cls>` + one field `F<t>`  -> `W`
 //!   B<rel>=<hex…>     write raw bytes (garbage texts)              -> `B`
@@ -79,10 +82,11 @@ fn sym_names(syms: &[DocumentSymbol], out: &mut Vec<String>) {
     }
 }
 
-/// uri -> path relative to the root (percent-decoded), or the whole uri if outside
-fn rel_of_uri(root: &Path, uri: &str) -> String {
+/// uri -> path relative to the root (percent-decoded), or the whole uri if outside.  A uri through the
+/// client's (symlinked) name of the root names the same file: both spellings of the root are accepted.
+fn rel_of_uri(root: &Path, client_root: &Path, uri: &str) -> String {
     match Url::parse(uri).ok().and_then(|u| u.to_file_path().ok()) {
-        Some(p) => match p.strip_prefix(root) {
+        Some(p) => match p.strip_prefix(root).or_else(|_| p.strip_prefix(client_root)) {
             Ok(r) => r.to_string_lossy().to_string(),
             Err(_) => format!("!{}", p.to_string_lossy()),
         },
@@ -119,7 +123,18 @@ pub fn run(words: &[&str]) -> String {
         Ok(p) => p,
         Err(_) => return "bad-ws".into(),
     };
-    let out = run_ops(&root, &words[2..]);
+    let linked = words.get(2) == Some(&"R");
+    let client_root = if linked {
+        let l = top.join("link");
+        if std::os::unix::fs::symlink(&root, &l).is_err() {
+            return "bad-ws".into();
+        }
+        // the parent directories are canonical, only the last component is the link
+        fs::canonicalize(&top).map(|t| t.join("link")).unwrap_or(l)
+    } else {
+        root.clone()
+    };
+    let out = run_ops(&root, &client_root, &words[if linked { 3 } else { 2 }..]);
     let _ = fs::remove_dir_all(&top);
     out
 }
@@ -128,11 +143,11 @@ fn new_pm(root: &Path) -> ProjectManager {
     ProjectManager::new(Some(Url::from_file_path(root).unwrap()), Box::new(NullLogger)).unwrap()
 }
 
-fn run_ops(root: &Path, ops: &[&str]) -> String {
+fn run_ops(root: &Path, client_root: &Path, ops: &[&str]) -> String {
     let pool = ThreadPool::new(1, Box::new(NullLogger));
-    let mut pm = new_pm(root);
+    let mut pm = new_pm(client_root);
     let mut out: Vec<String> = Vec::new();
-    let uri_of = |rel: &str| Url::from_file_path(root.join(rel)).unwrap();
+    let uri_of = |rel: &str| Url::from_file_path(client_root.join(rel)).unwrap();
     for op in ops {
         let (k, rest) = op.split_at(1);
         match k {
@@ -162,7 +177,7 @@ fn run_ops(root: &Path, ops: &[&str]) -> String {
                 out.push("X".into());
             }
             "N" => {
-                pm = new_pm(root);
+                pm = new_pm(client_root);
                 out.push("N".into());
             }
             "I" => {
@@ -222,19 +237,19 @@ fn run_ops(root: &Path, ops: &[&str]) -> String {
                         if i.get_opened_document().is_some() { "o" } else { "" },
                         if i.get_saved_document().is_some() { "s" } else { "" },
                         if i.get_symbol_table().is_some() { "T" } else { "" });
-                    let fp = match Path::new(&i.file_path).strip_prefix(root) {
+                    let fp = match Path::new(&i.file_path).strip_prefix(root).or_else(|_| Path::new(&i.file_path).strip_prefix(client_root)) {
                         Ok(r) => r.to_string_lossy().to_string(),
                         Err(_) => format!("!{}", i.file_path),
                     };
                     let same = if fp == rel { String::new() } else { format!("~{}", escape(&fp)) };
-                    recs.push((rel.clone(), format!("{}[{}]@{}{}", escape(&rel), flags, escape(&rel_of_uri(root, &i.uri)), same)));
+                    recs.push((rel.clone(), format!("{}[{}]@{}{}", escape(&rel), flags, escape(&rel_of_uri(root, client_root, &i.uri)), same)));
                 }
                 recs.sort();
                 out.push(format!("d={}", recs.into_iter().map(|r| r.1).collect::<Vec<_>>().join(";")));
                 for cls in rest.split(',').filter(|c| !c.is_empty()) {
                     let name = unescape(cls);
                     let r = match pm.doc_service.get_uri_for_class(&name) {
-                        Ok(u) => escape(&rel_of_uri(root, u.as_str())),
+                        Ok(u) => escape(&rel_of_uri(root, client_root, u.as_str())),
                         Err(_) => "-".into(),
                     };
                     out.push(format!("c:{}={}", cls, r));
